@@ -128,6 +128,33 @@ def lean_grammar_agrees(ctx, docs, cfgs):
     return len(reqs)
 
 
+def shared_parser_part(ctx):
+    """one BlockParser (with its nesting limit) handed to several converters: every one of them obeys the limit that was configured"""
+    import mistune
+    from mistune.block_parser import BlockParser
+    from mistune.inline_parser import InlineParser
+    from mistune.renderers.html import HTMLRenderer
+    n = 0
+    for lim in (2, 3, 4):
+        bp = BlockParser(max_nested_level=lim)
+        convs = [mistune.Markdown(renderer=HTMLRenderer(), block=bp, inline=InlineParser()), mistune.Markdown(renderer=None, block=bp, inline=InlineParser()),
+                 mistune.Markdown(renderer=None, block=bp, inline=InlineParser(hard_wrap=True))]
+        for md in convs[1:]:
+            for d in EXTRA + nest_docs(ctx.rng, 40):
+                try:
+                    convs[0](d)
+                    toks = md(d)
+                except Exception:
+                    continue
+                n += 1
+                r = tokgrammar.wf(toks, lim)
+                if r:
+                    ctx.fail("grammar:" + r[1].split(" ")[0] + ":shared-parser", "a converter that shares a BlockParser(max_nested_level=%d) with another converter violates the grammar at %s: %s (document %r)" % (lim, r[0], r[1], d),
+                             {"config": {"name": "shared-parser", "max_nested": lim}, "doc": d, "where": r[0], "why": r[1]})
+                    break
+    return n
+
+
 def run(ctx):
     ctx.broken += common.proof_stage(ctx, THEOREMS)
     q = ctx.quick()
@@ -137,6 +164,7 @@ def run(ctx):
     common.model_tie(ctx, docs[::3], 'core-hardwrap', 'doc', limit=(400 if ctx.quick() else 4000))
     n = oracle(ctx, docs, cfgs)
     n += custom_renderer_stream(ctx, docs[: (600 if q else 6000)])
+    n += shared_parser_part(ctx)
     lean_grammar_agrees(ctx, docs[: (800 if q else 8000)], cfgs)
     if ctx.broken and not ctx.failures:
         ctx.notes.append("search mode entered")
